@@ -227,6 +227,20 @@ func (c *inlCtx) newBuilder(call *ast.CallExpr, f *Func) *builder {
 			continue
 		}
 		p.name = nm
+		if simple && !written[p.obj] && p.typ != nil && !types.Identical(p.typ, p.obj.Type()) {
+			// an untyped constant or nil: substitute it converted to the parameter's type (T(nil), float64(2))
+			if bt, ok := p.typ.(*types.Basic); ok && bt.Info()&types.IsUntyped != 0 {
+				if te := typeExpr(p.obj.Type(), c.pkg.Types, c.file, c.info); te != nil {
+					if _, isPtr := te.(*ast.StarExpr); isPtr {
+						te = &ast.ParenExpr{X: te}
+					}
+					p.arg = &ast.CallExpr{Fun: te, Args: []ast.Expr{p.arg}}
+					p.typ = p.obj.Type()
+					p.subst = true
+					continue
+				}
+			}
+		}
 		if !simple || written[p.obj] || p.typ == nil || !types.Identical(p.typ, p.obj.Type()) {
 			continue
 		}
@@ -238,8 +252,31 @@ func (c *inlCtx) newBuilder(call *ast.CallExpr, f *Func) *builder {
 				if _, isPkg := info.Uses[identOfRoot(x)].(*types.PkgName); isPkg {
 					return false
 				}
-				if fieldsAssigned[x.Sel.Name] || hasCall {
+				if fieldsAssigned[x.Sel.Name] {
 					stableArg = false
+				} else if hasCall {
+					// the helper calls functions: the field must be one that none of them can write (field-write summaries)
+					sel, ok := info.Selections[x]
+					if !ok || sel.Kind() != types.FieldVal {
+						stableArg = false
+						break
+					}
+					fld := sel.Obj().(*types.Var)
+					ef := c.n.w.ent(f)
+					ast.Inspect(f.Body, func(q ast.Node) bool {
+						if call, ok := q.(*ast.CallExpr); ok && stableArg {
+							if tv, ok := finfo.Types[call.Fun]; ok && tv.IsType() {
+								return true
+							}
+							if _, isB := finfo.Uses[identOf(call.Fun)].(*types.Builtin); isB && identOf(call.Fun) != nil {
+								return true
+							}
+							if ef.mayWriteField(call, fld) {
+								stableArg = false
+							}
+						}
+						return stableArg
+					})
 				}
 			case *ast.StarExpr, *ast.IndexExpr:
 				if hasCall || len(fieldsAssigned) > 0 {
